@@ -199,7 +199,7 @@ func (s *ServerDnsListener) onMessage(m *dns.Msg, remoteAddr net.Addr) (*dns.Msg
 
 	request := commands.ComposeRequest(m, s.DefaultSerializer.Domain)
 	for _, c := range commands.Commands {
-		if c.IsOfType(request) {
+		if c.NewRequest != nil && c.IsOfType(request) {
 			var err error
 			_, userId, err = commands.DecodeRequestHeader(c, request)
 			if err != nil {
